@@ -12,6 +12,8 @@ pub enum Recv {
     View,
     /// parent.view_mut(outer).view_mut(inner) with outer = window grown by one cell where possible
     Nested,
+    /// three levels: parent.view_mut(o2).view_mut(o1).view_mut(inner)
+    Nested3,
     /// Thin(parent): trait defaults only
     ThinOwned,
     /// Thin(parent.view_mut(window))
@@ -57,6 +59,16 @@ pub fn with_recv<T, F: RecvFn<T>>(recv: Recv, parent: &mut TooDee<T>, win: Win, 
             let (outer, inner) = outer_of(win, parent.num_cols(), parent.num_rows());
             let mut o = parent.view_mut(outer.0, outer.1);
             let mut v = o.view_mut(inner.0, inner.1);
+            f.call(&mut v)
+        }
+        Recv::Nested3 => {
+            let (c, rws) = (parent.num_cols(), parent.num_rows());
+            let (o1, inner) = outer_of_mode(win, c, rws, 1 + (win.0).0 + (win.1).1);
+            // o1 is expressed in parent coordinates; wrap it once more
+            let (o2, o1_in_o2) = outer_of_mode(o1, c, rws, (win.0).1 + (win.1).0);
+            let mut a = parent.view_mut(o2.0, o2.1);
+            let mut b = a.view_mut(o1_in_o2.0, o1_in_o2.1);
+            let mut v = b.view_mut(inner.0, inner.1);
             f.call(&mut v)
         }
         Recv::ThinOwned => {
